@@ -318,6 +318,10 @@ func checkReader(r *ev.Run, w *c04my.World, c *proxyrig.MyClient, t proxyrig.Tab
 				}
 			}
 			r.SetAdd("mysql_policies_observed", pol)
+			r.Count("mysql_reads_by_"+readerClass(reader)+"_"+fmtName, 1)
+			if anyUnrevealable {
+				r.Count("mysql_reads_with_unrevealable_rows_"+readerClass(reader), 1)
+			}
 			if pol == "error" && anyUnrevealable {
 				if res.Err == nil {
 					r.Violation(sig("policy error: no error reported for the statement"), detail(nil))
@@ -332,6 +336,16 @@ func checkReader(r *ev.Run, w *c04my.World, c *proxyrig.MyClient, t proxyrig.Tab
 					if k < len(order) && unrevealable(order[k]) {
 						r.Violation(sig("policy error: a row with an unrevealable value was delivered"), detail(map[string]interface{}{"row": k}))
 					}
+				}
+				// "an error for the statement": the session must go on with the next statement
+				probe := c.Query("select id from " + t.Name + " order by id")
+				if probe.Timeout {
+					r.Inconclusive("watchdog after an error response (mysql c19)")
+					return false
+				}
+				if probe.Err != nil || len(probe.Rows) != len(srows) {
+					r.Violation(sig("policy error: session out of step after the error response"), detail(map[string]interface{}{"probe_error": fmt.Sprint(probe.Err), "probe_rows": len(probe.Rows), "want_rows": len(srows)}))
+					return false
 				}
 				r.Count("mysql_policy_fields_checked", 1)
 				r.Distinct(fmt.Sprintf("my|%s|typeid=%v|%s|%s|error|%s|%s|error-reported", col.DataType, col.TypeID != 0, col.Kind, col.Envelope, readerClass(reader), fmtName))
